@@ -100,9 +100,72 @@ def _eliminate_continue(text, log, unit_id):
     return text
 
 
+def _split_args(text):
+    """split a macro argument list at top-level commas"""
+    masked = rsparse.mask(text)
+    args, depth, start = [], 0, 0
+    for i, ch in enumerate(masked):
+        if ch in '([{':
+            depth += 1
+        elif ch in ')]}':
+            depth -= 1
+        elif ch == ',' and depth == 0:
+            args.append(text[start:i].strip())
+            start = i + 1
+    last = text[start:].strip()
+    if last:
+        args.append(last)
+    return args
+
+
+def _desugar_write(text, log, unit_id):
+    """R4: `write!(w, "<literal with {} only>", args...)?`  =>  the writes in source order, each with `?`:
+    literal pieces via x_write_str, `{}` arguments via x_write_<kind>. format_args! semantics for `{}`-only formats."""
+    n = 0
+    while True:
+        masked = rsparse.mask(text)
+        m = re.search(r'\bwrite!\s*\(', masked)
+        if not m:
+            break
+        o = m.end() - 1
+        c = rsparse.match_brace(masked, o, '(', ')')
+        if not masked[c + 1:].lstrip().startswith('?'):
+            raise ExtractError('%s: R4 expects `write!(..)?`' % unit_id)
+        q = masked.index('?', c)
+        args = _split_args(text[o + 1:c])
+        w, fmt, rest = args[0], args[1], args[2:]
+        if not (fmt.startswith('"') and fmt.endswith('"')):
+            raise ExtractError('%s: R4 needs a literal format string' % unit_id)
+        pieces = fmt[1:-1].split('{}')
+        if re.search(r'\{[^}]', fmt[1:-1].replace('{}', '')) or len(pieces) != len(rest) + 1:
+            raise ExtractError('%s: R4 supports `{}` placeholders only' % unit_id)
+        calls = []
+        for i, piece in enumerate(pieces):
+            if piece:
+                calls.append('x_write_str(%s, "%s")?;' % (w, piece))
+            if i < len(rest):
+                a = rest[i]
+                me = re.match(r'utf8_percent_encode\((.*),\s*(\w+)\)$', a, re.S)
+                if me:
+                    calls.append('x_write_encoded(%s, %s, %s)?;' % (w, me.group(1).strip(), me.group(2)))
+                else:
+                    calls.append('x_write_display(%s, &%s)?;' % (w, a))
+        new = '{ ' + ' '.join(calls) + ' }'
+        log.append(dict(unit=unit_id, rule='R4', where='body', pattern='write!(w, "fmt", args)?', replacement='writes in source order',
+                        matches=[text[m.start():q + 1]]))
+        text = text[:m.start()] + new + text[q + 1:]
+        n += 1
+    if n == 0:
+        raise ExtractError('%s: R4 found no write!(..)?' % unit_id)
+    return text
+
+
 def _apply_rewrites(text, rewrites, log, unit_id, where):
     for rw in rewrites:
         rule, pat, repl = rw[0], rw[1], rw[2]
+        if pat == '@write':
+            text = _desugar_write(text, log, unit_id)
+            continue
         if pat == '@continue':
             text = _eliminate_continue(text, log, unit_id)
             continue
